@@ -26,9 +26,10 @@ TRUSTED_REASONS = {
     'assume_specification: char::is_ascii_alphabetic': 'total pure bool (no postcondition)',
     'assume_specification: <[T]>::contains': 'total pure bool (no postcondition)',
     'assume_specification: <core::slice::Iter<\'a, T> as Iterator>::all': 'total bool (no postcondition); sound for closures without preconditions, which is what the call site passes',
-    'external_body: lex_hostname': 'split()-based scanner: contract Some(n) ==> n <= len assumed; Kani harness lexing.hostname_4 (bounded)',
+    'external_body: lex_hostname': 'callee contract in unit lexing/others; the body is verified in unit url (desugaring R10 of slice::split)',
     'external_body: lex_hostport': 'enumerate().find(): contract Some(n) ==> n <= len assumed; reached by Kani harness lexing.url_4 (bounded)',
     'external_body: validate_scheme': 'iter().all(): arbitrary total bool',
+    'external_body: validate_local_part': 'e-mail local part check (tuple_windows / iterator code over a sub-slice): arbitrary total bool; its termination and panic-freedom are covered by rac:lexers only',
 
     'external_body: condense_indices': 'peekable()-based body; contract assumed in Verus, checked by rac:condense_indices (bounded: len<=7, stretch<=3)',
     'external_body: next': 'stub iterators standing for one-line iterator adapters of /repo: number_lint unit (Document::iter_numbers, paste!-generated tokens.iter().filter(is_number): assumed to yield document tokens of kind Number) and mask_parser unit (Mask::iter_allowed: assumed to yield the allowed spans in order with their characters); both assumed to terminate',
